@@ -47,6 +47,7 @@ fn dispatch(cmd: &str, rest: &[String]) {
 		"cfg-replay" => indicators::cfg_replay(rest),
 		"ind-api-replay" => indicators::api_replay(rest),
 		"indparams-replay" => indicators::params_replay(rest),
+		"ind-dyn-replay" => indicators::dyn_replay(rest),
 		"ind-record" => indicators::record(rest),
 		"ind-prefix-record" => indicators::prefix_record(rest),
 		"soak-record" => soak::record(rest),
